@@ -4,6 +4,7 @@ package limit
 
 import (
 	"fmt"
+	"sort"
 	"testing"
 	"time"
 
@@ -104,8 +105,8 @@ func c08Period(r *zsim.Run) {
 	if align {
 		opts = append(opts, Align())
 	}
-	// start at an arbitrary second so that alignment matters
-	srv.Advance(time.Duration(o.Intn(200)) * time.Second)
+	// start at an arbitrary second, and at an arbitrary phase inside it, so that alignment and rounding matter
+	srv.Advance(time.Duration(o.Intn(200))*time.Second + time.Duration(zsim.Pick(o, 0, 500, 300, 700, 999))*time.Millisecond)
 	pl := NewPeriodLimit(period, quota, store, "pl:", opts...)
 	r.Logf("period limiter period=%d quota=%d align=%v", period, quota, align)
 	h := &c08Hist{name: "period-limiter"}
@@ -134,16 +135,18 @@ func c08Period(r *zsim.Run) {
 		Step: func(state, input, output interface{}) (bool, interface{}) {
 			s := state.(st)
 			in := input.(c08PeriodIn)
+			// in.now is in milliseconds; the counter's TTL is a whole number of seconds from the first take
 			if s.count > 0 && in.now >= s.expireAt {
 				s = st{}
 			}
 			s.count++
 			if s.count == 1 {
+				ttl := int64(period)
 				if align {
-					s.expireAt = in.now + int64(period) - in.now%int64(period)
-				} else {
-					s.expireAt = in.now + int64(period)
+					sec := in.now / 1000
+					ttl = int64(period) - sec%int64(period)
 				}
+				s.expireAt = in.now + ttl*1000
 			}
 			want := Allowed
 			if s.count == quota {
@@ -160,7 +163,7 @@ func c08Period(r *zsim.Run) {
 	for round := 0; round < rounds && !r.Failed(); round++ {
 		tasks := 1 + o.Intn(4)
 		done := 0
-		now := time.Now().Unix()
+		now := time.Now().UnixMilli()
 		active := 0
 		for t := 0; t < tasks; t++ {
 			t := t
@@ -308,7 +311,15 @@ func c08Outage(r *zsim.Run) {
 	burst := zsim.Pick(o, 3, 2, 5, 10)
 	srv.Advance(time.Duration(1+o.Intn(50)) * time.Second)
 	tl := NewTokenLimiter(rate, burst, store, "tlo")
-	r.Logf("outage: token limiter rate=%d burst=%d", rate, burst)
+	// some runs hold tasks at scheduling points (pre-emption), which opens the windows between the monitor's steps
+	r.StallUnit = 10 * time.Millisecond
+	switch f.Intn(3) {
+	case 1:
+		r.StallOdds = 20
+	case 2:
+		r.StallSites = 4
+	}
+	r.Logf("outage: token limiter rate=%d burst=%d stalls=%d/%d", rate, burst, r.StallOdds, r.StallSites)
 	r.NonTrivial()
 	// phase 1: healthy traffic
 	for i := 0; i < 1+o.Intn(4); i++ {
@@ -320,9 +331,20 @@ func c08Outage(r *zsim.Run) {
 		r.Failf("redis-not-used", "the token limiter did not reach Redis although it is healthy")
 		return
 	}
-	// phase 2: cut, hammer
-	srv.Cut()
-	r.FaultFired("redis-cut")
+	// phase 2: Redis fails (unreachable, or reachable but the script fails while PING still answers); hammer
+	scriptOnly := f.Intn(3) == 2
+	if scriptOnly {
+		srv.FailReply = func(cmd string, args []string) string {
+			if cmd == "EVALSHA" || cmd == "EVAL" {
+				r.FaultFired("redis-script-error")
+				return "ERR injected script failure"
+			}
+			return ""
+		}
+	} else {
+		srv.Cut()
+		r.FaultFired("redis-cut")
+	}
 	if f.Intn(2) == 1 {
 		srv.Latency = 2 * time.Millisecond
 	}
@@ -330,24 +352,55 @@ func c08Outage(r *zsim.Run) {
 	var admitted []time.Time // one entry per admitted token
 	offered := 0
 	dur := time.Duration(2+o.Intn(8)) * time.Second
-	for time.Since(start) < dur && !r.Failed() {
-		for k := 0; k < 1+o.Intn(burst+2); k++ {
-			n := 1
-			if o.Intn(3) == 0 {
-				n = 1 + o.Intn(burst)
-			}
-			offered += n
-			if tl.AllowN(time.Now(), n) {
-				for j := 0; j < n; j++ {
-					admitted = append(admitted, time.Now())
+	hammer := func() {
+		for time.Since(start) < dur && !r.Failed() {
+			for k := 0; k < 1+o.Intn(burst+2); k++ {
+				n := 1
+				if o.Intn(3) == 0 {
+					n = 1 + o.Intn(burst)
+				}
+				offered += n
+				if tl.AllowN(time.Now(), n) {
+					for j := 0; j < n; j++ {
+						admitted = append(admitted, time.Now())
+					}
 				}
 			}
+			srv.Advance(time.Duration(50+o.Intn(400)) * time.Millisecond)
 		}
-		srv.Advance(time.Duration(50+o.Intn(400)) * time.Millisecond)
 	}
+	// further callers hammer at the same time (they meet the monitor's hand-over points)
+	extra, extraDone := o.Intn(3), 0
+	for e := 0; e < extra; e++ {
+		r.Go(fmt.Sprintf("hammer%d", e), func() {
+			defer func() { extraDone++ }()
+			for time.Since(start) < dur && !r.Failed() {
+				n := 1 + o.Intn(2)
+				offered += n
+				if tl.AllowN(time.Now(), n) {
+					for j := 0; j < n; j++ {
+						admitted = append(admitted, time.Now())
+					}
+				}
+				zsim.Sleep(time.Duration(10+o.Intn(150)) * time.Millisecond)
+			}
+		})
+	}
+	hammer()
+	if !r.WaitFor(time.Minute, 10*time.Millisecond, func() bool { return extraDone == extra }) {
+		r.Failf("callers-blocked", "callers blocked: %v", r.Alive(false))
+		return
+	}
+	sort.Slice(admitted, func(i, j int) bool { return admitted[i].Before(admitted[j]) })
 	r.Logf("outage %v: offered %d admitted %d", time.Since(start), offered, len(admitted))
 	// over every interval [i,j] of admissions: count <= burst + rate*seconds (whole caller seconds, +1 for rounding of the boundary seconds)
+	// (with stalled tasks the caller clocks reach the in-process bucket out of order - a caller reads its clock and
+	// is then held for up to 400 ms before it gets to the bucket - which is outside "advances of caller time"; the
+	// admission bound is only asserted for runs without stalls)
 	for i := range admitted {
+		if r.StallOdds > 0 || r.StallSites > 0 {
+			break
+		}
 		for j := i; j < len(admitted); j++ {
 			secs := admitted[j].Unix() - admitted[i].Unix() + 1
 			if n := j - i + 1; int64(n) > int64(burst)+int64(rate)*secs {
@@ -362,6 +415,7 @@ func c08Outage(r *zsim.Run) {
 	}
 	// phase 3: heal; the limiter must return to Redis
 	srv.Heal()
+	srv.FailReply = nil
 	srv.Latency = 0
 	evalsAtHeal := srv.Count("EVALSHA") + srv.Count("EVAL")
 	back := false
